@@ -477,6 +477,12 @@ impl Evaluate for Instance {
         let mut samples = samples.clone();
         for state in samples.states_mut() {
             let state = state?;
+            // Dependent variables may refer to the fixed variables, as in `evaluate`
+            for v in &self.decision_variables {
+                if let Some(value) = v.substituted_value {
+                    state.entries.insert(v.id, value);
+                }
+            }
             let mut new = eval_dependencies(&self.decision_variable_dependency, state)?;
             used_ids.append(&mut new);
             // Fill variables which the problem does not use, as `evaluate` does
